@@ -2,7 +2,7 @@
 EXTENDS TcpStream, Json
 CONSTANT Tier, Family     \* Family = "C12" | "C16"
 
-LensC12 == IF Tier = "thorough" THEN {<<2, 1>>, <<1, 2, 1>>, <<2, 3>>} ELSE {<<2, 1>>, <<1, 2>>}
+LensC12 == IF Tier = "thorough" THEN {<<3, 1>>, <<1, 3, 1>>, <<2, 3>>, <<3, 4>>} ELSE {<<3, 1>>, <<1, 3>>}
 C12Cfgs == [lens : LensC12, L : {0}]
 (* C16: limit of 3 units; envelope sizes below, at, between one and two limits, above two limits *)
 LU == 3
